@@ -87,6 +87,8 @@ Variable summ1 : N -> list N -> wm_sentry.
 Variable summN : bool -> list wm_sentry -> wm_sentry.
 Variable d : sigdef.
 Variable pos0 : Z.
+Variable xs : wm_fx.
+Variable n0 : nat.
 Hypothesis Hpos0 : (0 < pos0)%Z.
 Let pd := rf_pd d.
 Let w := dt_bits (sg_dtype d).
@@ -125,14 +127,14 @@ Proof.
 Qed.
 
 Lemma rf_sim_blocks : forall t0 bl rest pre cs blks x st st',
-  rf_S d pos0 t0 1 pre cs blks x st ->
+  rf_S d pos0 t0 1 xs n0 pre cs blks x st ->
   Forall (fun b => length b = N.to_nat (sg_spd d)) bl ->
   pw_dts st = (t0 + py_spd pd * Z.of_nat (length blks))%Z ->
   wm_f_omit (wm_fx_fsr x) < 256 ->
   py_do_all pd (py_plan small (py_sdf pd) (Z.of_N (wm_f_omit (wm_fx_fsr x))) (map (rf_sblk w) bl ++ rest)) st = PyOk st' ->
   let x1 := fold_left (rf_flush summ1 summN d) bl x in
   exists cs' st1,
-    rf_S d pos0 t0 1 pre (cs ++ cs') (blks ++ bl) x1 st1 /\
+    rf_S d pos0 t0 1 xs n0 pre (cs ++ cs') (blks ++ bl) x1 st1 /\
     pw_dts st1 = (t0 + py_spd pd * Z.of_nat (length (blks ++ bl)))%Z /\
     wm_f_omit (wm_fx_fsr x1) < 256 /\
     py_do_all pd (py_plan small (py_sdf pd) (Z.of_N (wm_f_omit (wm_fx_fsr x1))) rest) st1 = PyOk st'.
@@ -147,7 +149,7 @@ Proof.
     cbn [py_do_all py_do] in Hpy. unfold py_bind in Hpy at 1.
     rewrite <- rf_req_plan in Hpy.
     destruct (py_wr_data pd (Z.of_nat (length b)) (rf_req d (wm_f_omit (wm_fx_fsr x)) b) st) as [st1|e] eqn:Ewd; [|discriminate].
-    destruct (rf_sim_flush summ1 summN d pos0 t0 1 Hpos0 Hsid Hg_idx Hg_sum Hspd Hw Hg_data ltac:(lia) pre cs blks x st b st1 HS Hbne Hblen Hdts Ewd)
+    destruct (rf_sim_flush summ1 summN d pos0 t0 1 xs n0 Hpos0 Hsid Hg_idx Hg_sum Hspd Hw Hg_data ltac:(lia) pre cs blks x st b st1 HS Hbne Hblen Hdts Ewd)
       as (cs1 & HS1 & Hdts1).
     destruct (rf_flush_blk summ1 summN d x b Hbne) as (_ & _ & _ & _ & _ & Eom).
     destruct (rf_reg_shift _ Hom) as (Esh & Hom1).
@@ -165,7 +167,7 @@ Proof.
   intros lo lo' offs x st Hle [Rbok Rtok Rty Rlvlen Rpos Rnz Rheads Rdhead Rlvls Rdts].
   constructor; try assumption. intros L HL. apply Rlvls. lia.
 Qed.
-Lemma rf_S_weaken : forall t0 lo lo' pre cs blks x st, (lo <= lo')%nat -> rf_S d pos0 t0 lo pre cs blks x st -> rf_S d pos0 t0 lo' pre cs blks x st.
+Lemma rf_S_weaken : forall t0 lo lo' pre cs blks x st, (lo <= lo')%nat -> rf_S d pos0 t0 lo xs n0 pre cs blks x st -> rf_S d pos0 t0 lo' xs n0 pre cs blks x st.
 Proof. intros t0 lo lo' pre cs blks x st Hle (A & B & C). split; [eapply rf_R_weaken; eauto|]. split; assumption. Qed.
 
 Lemma rf_py_wr_summary_empty : forall k L st, pl_idx (py_lvl_get st L) = [] -> pl_sum (py_lvl_get st L) = 0%Z ->
@@ -173,9 +175,9 @@ Lemma rf_py_wr_summary_empty : forall k L st, pl_idx (py_lvl_get st L) = [] -> p
 Proof. intros k L st Hi Hs. cbn [py_wr_summary]. rewrite Hi, Hs. reflexivity. Qed.
 
 Lemma rf_sim_close_level_gen : forall wfuel t0 L pre cs blks x st st', (16 <= wfuel)%nat ->
-  rf_S d pos0 t0 L pre cs blks x st -> (1 <= L <= 15)%nat ->
+  rf_S d pos0 t0 L xs n0 pre cs blks x st -> (1 <= L <= 15)%nat ->
   py_wr_summary (16 - L) pd L st = PyOk st' ->
-  exists cs', rf_S d pos0 t0 (S L) pre (cs ++ cs') blks
+  exists cs', rf_S d pos0 t0 (S L) xs n0 pre (cs ++ cs') blks
     (match wm_f_get_level (wm_fx_fsr x) (N.of_nat L) with
      | None => x
      | Some _ => let x1 := wm_fsr_wr_summary summN wfuel d (N.of_nat L) x in
@@ -185,7 +187,7 @@ Proof.
   intros wfuel t0 L pre cs blks x st st' Hwf HS HL Hpy.
   pose proof HS as (HR & HF & Hout).
   destruct (wm_f_get_level (wm_fx_fsr x) (N.of_nat L)) as [lv|] eqn:Elv.
-  - destruct (rf_sim_wr_summary summ1 summN d pos0 t0 L Hpos0 Hsid Hg_idx Hg_sum (16 - L) L wfuel pre cs blks x st st' lv HS
+  - destruct (rf_sim_wr_summary summ1 summN d pos0 t0 L xs n0 Hpos0 Hsid Hg_idx Hg_sum (16 - L) L wfuel pre cs blks x st st' lv HS
                ltac:(lia) ltac:(lia) eq_refl ltac:(lia) Elv Hpy) as (cs' & HS').
     exists cs'. cbv zeta. set (x1 := wm_fsr_wr_summary summN wfuel d (N.of_nat L) x) in *. clearbody x1.
     destruct HS' as (HR' & HF' & Hout').
@@ -202,18 +204,18 @@ Proof.
 Qed.
 
 Lemma rf_sim_close_level : forall t0 L pre cs blks x st st',
-  rf_S d pos0 t0 L pre cs blks x st -> (1 <= L <= 15)%nat ->
+  rf_S d pos0 t0 L xs n0 pre cs blks x st -> (1 <= L <= 15)%nat ->
   py_wr_summary (16 - L) pd L st = PyOk st' ->
-  exists cs', rf_S d pos0 t0 (S L) pre (cs ++ cs') blks (wm_fsr_summary_close summN d x (N.of_nat L)) st'.
+  exists cs', rf_S d pos0 t0 (S L) xs n0 pre (cs ++ cs') blks (wm_fsr_summary_close summN d x (N.of_nat L)) st'.
 Proof.
   intros t0 L pre cs blks x st st' HS HL Hpy.
   exact (rf_sim_close_level_gen wm_level_count t0 L pre cs blks x st st' (Nat.le_refl 16) HS HL Hpy).
 Qed.
 
 Lemma rf_sim_close_loop : forall t0 k L pre cs blks x st st',
-  rf_S d pos0 t0 L pre cs blks x st -> (1 <= L)%nat -> (L + k = 16)%nat ->
+  rf_S d pos0 t0 L xs n0 pre cs blks x st -> (1 <= L)%nat -> (L + k = 16)%nat ->
   py_close_loop k pd L st = PyOk st' ->
-  exists cs', rf_S d pos0 t0 16 pre (cs ++ cs') blks
+  exists cs', rf_S d pos0 t0 16 xs n0 pre (cs ++ cs') blks
                    (fold_left (wm_fsr_summary_close summN d) (map N.of_nat (seq L k)) x) st'.
 Proof.
   intros t0 k. induction k as [|k IH]; intros L pre cs blks x st st' HS HL Hk Hpy.
@@ -229,14 +231,14 @@ Qed.
 
 (* ---- the invariant between calls (after the first non-empty jls_wr_fsr_data) ---- *)
 Definition rf_I (t0 : Z) (pre cs : list rf_chunk) (blks : list (list N)) (x : wm_fx) (st : py_wr) (s : rf_bs) : Prop :=
-  rf_S d pos0 t0 1 pre cs blks x st /\ rf_bs_rel x s /\ bs_alloc s = true /\
+  rf_S d pos0 t0 1 xs n0 pre cs blks x st /\ rf_bs_rel x s /\ bs_alloc s = true /\
   pw_dts st = (t0 + py_spd pd * Z.of_nat (length blks))%Z.
 
 Lemma rf_S_set_buf : forall t0 pre cs blks x st r,
-  rf_S d pos0 t0 1 pre cs blks x st -> rf_S d pos0 t0 1 pre cs blks (rf_set_buf x r) st.
+  rf_S d pos0 t0 1 xs n0 pre cs blks x st -> rf_S d pos0 t0 1 xs n0 pre cs blks (rf_set_buf x r) st.
 Proof.
   intros t0 pre cs blks x st r HS. pose proof HS as (HR & _).
-  apply (rf_S_change d pos0 t0 1 pre cs blks x st); [exact HS| |reflexivity|reflexivity].
+  apply (rf_S_change d pos0 t0 1 xs n0 pre cs blks x st); [exact HS| |reflexivity|reflexivity].
   rewrite (rf_py_eta st). unfold rf_set_buf.
   apply (rf_R_fsr_change d pos0 1 _ x st _ (pw_dts st) HR); [reflexivity|].
   cbn [wm_f_set_block wm_f_ts]. symmetry. exact (R_dts _ _ _ _ _ _ HR).
@@ -244,7 +246,7 @@ Qed.
 
 (* a feed (the body of jls_wr_fsr_data after Spec's extension) *)
 Lemma rf_sim_feed : forall t0 data rest pre cs blks x st st',
-  rf_S d pos0 t0 1 pre cs blks x st ->
+  rf_S d pos0 t0 1 xs n0 pre cs blks x st ->
   pw_dts st = (t0 + py_spd pd * Z.of_nat (length blks))%Z ->
   wm_f_omit (wm_fx_fsr x) < 256 ->
   let all := rev (wm_f_buf (wm_fx_fsr x)) ++ data in
@@ -252,7 +254,7 @@ Lemma rf_sim_feed : forall t0 data rest pre cs blks x st st',
   py_do_all pd (py_plan small (py_sdf pd) (Z.of_N (wm_f_omit (wm_fx_fsr x))) (map (rf_sblk w) bl ++ rest)) st = PyOk st' ->
   let x1 := rf_feed summ1 summN d x data in
   exists cs' st1,
-    rf_S d pos0 t0 1 pre (cs ++ cs') (blks ++ bl) x1 st1 /\
+    rf_S d pos0 t0 1 xs n0 pre (cs ++ cs') (blks ++ bl) x1 st1 /\
     pw_dts st1 = (t0 + py_spd pd * Z.of_nat (length (blks ++ bl)))%Z /\
     wm_f_omit (wm_fx_fsr x1) < 256 /\
     py_do_all pd (py_plan small (py_sdf pd) (Z.of_N (wm_f_omit (wm_fx_fsr x1))) rest) st1 = PyOk st'.
@@ -346,7 +348,7 @@ Proof.
     split; [|split; [cbn [wm_fx_fsr wm_fx_set_fsr wm_f_set_omit wm_f_omit]; rewrite Hreg; exact Hpy|reflexivity]].
     split; [|split; [|split; [exact Ha|exact Hdts]]].
     + pose proof HS as (HR & _).
-      apply (rf_S_change d pos0 t0 1 pre cs blks x st); [exact HS| |reflexivity|reflexivity].
+      apply (rf_S_change d pos0 t0 1 xs n0 pre cs blks x st); [exact HS| |reflexivity|reflexivity].
       rewrite (rf_py_eta st). apply (rf_R_fsr_change d pos0 1 _ x st _ (pw_dts st) HR); [reflexivity|].
       cbn [wm_f_set_omit wm_f_ts]. symmetry. exact (R_dts _ _ _ _ _ _ HR).
     + unfold rf_bs_rel. cbn [wm_fx_fsr wm_fx_set_fsr wm_f_set_omit wm_f_alloc wm_f_omit wm_f_ts wm_f_buf].
@@ -362,7 +364,7 @@ Lemma rf_sim_fsr_close : forall t0 pre cs blks x st s stm st',
   rf_I t0 pre cs blks x st s ->
   py_do_all pd (py_plan small (py_sdf pd) (Z.of_N (wm_f_omit (wm_fx_fsr x))) (rf_script d s [])) st = PyOk stm ->
   py_close pd stm = PyOk st' ->
-  exists cs', rf_S d pos0 t0 16 pre (cs ++ cs') (blks ++ rf_blocks d s []) (wm_fsr_close summ1 summN d x) st'.
+  exists cs', rf_S d pos0 t0 16 xs n0 pre (cs ++ cs') (blks ++ rf_blocks d s []) (wm_fsr_close summ1 summN d x) st'.
 Proof.
   intros t0 pre cs blks x st s stm st' (HS & Hbs & Ha & Hdts) Hpy Hcl.
   pose proof Hbs as (B1 & B2 & B3 & B4). destruct (B3 Ha) as (C1 & C2 & (C3 & C4)).
@@ -371,7 +373,7 @@ Proof.
   (* the pending block *)
   assert (Hstep : exists cs1 y,
             wm_fsr_wr_data summ1 summN d x = y /\
-            rf_S d pos0 t0 1 pre (cs ++ cs1) (blks ++ match bs_pend s with [] => [] | _ => [bs_pend s] end) y stm).
+            rf_S d pos0 t0 1 xs n0 pre (cs ++ cs1) (blks ++ match bs_pend s with [] => [] | _ => [bs_pend s] end) y stm).
   { assert (Hx : rf_set_buf x (rev (wm_f_buf (wm_fx_fsr x))) = x) by (apply rf_set_buf_same; exact C3).
     assert (Hp : rev (wm_f_buf (wm_fx_fsr x)) = bs_pend s) by (rewrite C2, rev_involutive; reflexivity).
     rewrite Hp in Hx.
@@ -388,14 +390,14 @@ Proof.
       injection Hpy as <-.
       assert (Hlen : rf_len (bs_pend s) <= sg_spd d).
       { unfold rf_len in *. rewrite <- Hp, rev_length. lia. }
-      destruct (rf_sim_flush summ1 summN d pos0 t0 1 Hpos0 Hsid Hg_idx Hg_sum Hspd Hw Hg_data ltac:(lia) pre cs blks x st (bs_pend s) st1 HS Hne Hlen Hdts Ewd)
+      destruct (rf_sim_flush summ1 summN d pos0 t0 1 xs n0 Hpos0 Hsid Hg_idx Hg_sum Hspd Hw Hg_data ltac:(lia) pre cs blks x st (bs_pend s) st1 HS Hne Hlen Hdts Ewd)
         as (cs1 & HS1 & _).
       exists cs1, (rf_flush summ1 summN d x (bs_pend s)). split; [unfold rf_flush; rewrite Hx; reflexivity|exact HS1]. }
   destruct Hstep as (cs1 & y & Ey & HSy). rewrite Ey. clear Ey.
   set (y1 := wm_fx_set_fsr y _).
-  assert (HSy1 : rf_S d pos0 t0 1 pre (cs ++ cs1) (blks ++ match bs_pend s with [] => [] | _ => [bs_pend s] end) y1 stm).
+  assert (HSy1 : rf_S d pos0 t0 1 xs n0 pre (cs ++ cs1) (blks ++ match bs_pend s with [] => [] | _ => [bs_pend s] end) y1 stm).
   { pose proof HSy as (HR & _).
-    apply (rf_S_change d pos0 t0 1 _ _ _ y stm); [exact HSy| |reflexivity|reflexivity].
+    apply (rf_S_change d pos0 t0 1 xs n0 _ _ _ y stm); [exact HSy| |reflexivity|reflexivity].
     rewrite (rf_py_eta stm). apply (rf_R_fsr_change d pos0 1 _ y stm _ (pw_dts stm) HR); [reflexivity|].
     cbn [wm_f_set_block wm_f_ts]. symmetry. exact (R_dts _ _ _ _ _ _ HR). }
   clearbody y1.
@@ -408,7 +410,7 @@ Lemma rf_sim_ops : forall ops t0 pre cs blks x st s stm st',
   rf_I t0 pre cs blks x st s ->
   py_do_all pd (py_plan small (py_sdf pd) (Z.of_N (wm_f_omit (wm_fx_fsr x))) (rf_script d s ops)) st = PyOk stm ->
   py_close pd stm = PyOk st' ->
-  exists cs', rf_S d pos0 t0 16 pre (cs ++ cs') (blks ++ rf_blocks d s ops)
+  exists cs', rf_S d pos0 t0 16 xs n0 pre (cs ++ cs') (blks ++ rf_blocks d s ops)
                    (wm_fsr_close summ1 summN d (fold_left rf_do ops x)) st'.
 Proof.
   induction ops as [|o ops IH]; intros t0 pre cs blks x st s stm st' HI Hpy Hcl.
@@ -462,18 +464,19 @@ Proof. intros x o H. exact H. Qed.
 (* ---- the whole call sequence ---- *)
 Lemma rf_sim_run : forall ops x stm st',
   rf_fresh x -> wm_f_alloc (wm_fx_fsr x) = false -> wm_f_ts (wm_fx_fsr x) = 0%Z -> wm_f_omit (wm_fx_fsr x) < 256 ->
+  rf_dl xs n0 [] x ->
   py_do_all pd (py_plan small (py_sdf pd) (Z.of_N (wm_f_omit (wm_fx_fsr x))) (rf_script d rf_bs0 ops)) (py_init (rf_t0 ops) pos0) = PyOk stm ->
   py_close pd stm = PyOk st' ->
-  exists cs, rf_S d pos0 (rf_t0 ops) 16 (filter (rf_mine d) (rf_out x)) cs (rf_blocks d rf_bs0 ops)
+  exists cs, rf_S d pos0 (rf_t0 ops) 16 xs n0 (filter (rf_mine d) (rf_out x)) cs (rf_blocks d rf_bs0 ops)
                   (wm_fsr_close summ1 summN d (fold_left rf_do ops x)) st'.
 Proof.
-  induction ops as [|o ops IH]; intros x stm st' Hfr Hal Hts Hom Hpy Hcl.
+  induction ops as [|o ops IH]; intros x stm st' Hfr Hal Hts Hom Hdl0 Hpy Hcl.
   - (* no data at all *)
     cbn [rf_script rf_bs0 bs_alloc py_plan py_do_all rf_t0 rf_blocks fold_left] in *. injection Hpy as <-.
     unfold wm_fsr_close. rewrite Hal, rf_close_levels_eq.
     pose proof (rf_R_init x Hfr) as HR. rewrite Hts in HR.
-    assert (HS : rf_S d pos0 0 1 (filter (rf_mine d) (rf_out x)) [] [] x (py_init 0 pos0)).
-    { split; [exact HR|]. split; [constructor|reflexivity]. }
+    assert (HS : rf_S d pos0 0 1 xs n0 (filter (rf_mine d) (rf_out x)) [] [] x (py_init 0 pos0)).
+    { split; [exact HR|]. split; [cbn [py_init pw_disk]; constructor|]. split; [reflexivity|exact Hdl0]. }
     unfold py_close in Hcl.
     destruct (rf_sim_close_loop 0%Z 15 1 _ [] [] x _ st' HS ltac:(lia) ltac:(lia) Hcl) as (cs & HS').
     exists cs. exact HS'.
@@ -504,7 +507,7 @@ Proof.
         rewrite Escr in Hpy. rewrite Eblk, Edo.
         assert (HI : rf_I sid (filter (rf_mine d) (rf_out x)) [] [] x1 (py_init sid pos0) s1).
         { split; [|split; [|split]].
-          - split; [|split; [cbn [py_init pw_disk]; constructor|subst x1; unfold rf_alloc; rewrite Hal; reflexivity]].
+          - split; [|split; [cbn [py_init pw_disk]; constructor|split; [subst x1; unfold rf_alloc; rewrite Hal; reflexivity|eapply rf_dl_same; [exact Hdl0|subst x1; unfold rf_alloc; rewrite Hal; reflexivity]]]].
             pose proof (rf_R_init x1 (rf_fresh_alloc x sid Hfr)) as HR. rewrite Hx1f in HR. exact HR.
           - unfold rf_bs_rel. rewrite Hx1f. cbn. split; [reflexivity|]. split; [exact Hom|]. split; [|intro X; discriminate X].
             intros _. split; [reflexivity|]. split; [reflexivity|]. split; [reflexivity|exact Hspd].
@@ -521,8 +524,11 @@ Proof.
       { destruct (en =? 0); cbn [negb py_reg_enable]; [split; [reflexivity|lia]|]. apply rf_reg_enable. exact Hom. }
       destruct Hreg as (Hreg & Hlt).
       set (x' := wm_fx_set_fsr x (wm_f_set_omit (wm_fx_fsr x) (if en =? 0 then 0 else N.lor (wm_f_omit (wm_fx_fsr x)) 1))).
-      destruct (IH x' stm st') as (cs & HS); try assumption.
+      destruct (IH x' stm st') as (cs & HS).
+      { exact Hfr. } { exact Hal. } { exact Hts. } { exact Hlt. }
+      { eapply rf_dl_same; [exact Hdl0|reflexivity]. }
       { subst x'. cbn [wm_fx_fsr wm_fx_set_fsr wm_f_set_omit wm_f_omit]. rewrite Hreg. exact Hpy. }
+      { exact Hcl. }
       exists cs. exact HS.
 Qed.
 
@@ -551,6 +557,7 @@ Theorem rf_fsr_refines : forall summ1 summN d pos0 x0 ops st,
   py_srun (rf_pd d) (dt_bits (sg_dtype d) <=? 8) (rf_t0 ops) pos0 (rf_script d rf_bs0 ops) = PyOk st ->
   let x := wm_fsr_close summ1 summN d (fold_left (rf_do summ1 summN d) ops x0) in
   exists cs,
+    rf_out x = rev cs ++ rf_out x0 /\
     filter (rf_mine d) (rf_out x) = rev cs ++ filter (rf_mine d) (rf_out x0) /\
     Forall2 (rf_chunk_rel d pos0 (rf_t0 ops) (map rc_off cs) (rf_blocks d rf_bs0 ops)) cs (pw_disk st) /\
     wm_fault (wm_b_raw (wm_fx_base x)) = false /\ rf_bok (wm_fx_base x) /\
@@ -566,9 +573,10 @@ Proof.
   assert (Hal : wm_f_alloc (wm_fx_fsr x0) = false) by (rewrite Hopen; reflexivity).
   assert (Hts : wm_f_ts (wm_fx_fsr x0) = 0%Z) by (rewrite Hopen; reflexivity).
   assert (Hom : wm_f_omit (wm_fx_fsr x0) = 0) by (rewrite Hopen; reflexivity).
-  destruct (rf_sim_run summ1 summN d pos0 Hpos0 Hsid Hg_idx Hg_sum Hspd Hw Hg3 Hfill ops x0 stm st Hfr Hal Hts ltac:(rewrite Hom; lia)
-              ltac:(rewrite Hom; exact Edo) Hpy) as (cs & HR & HF & Hout).
-  exists cs. fold x in HR, HF, Hout. split; [exact Hout|]. split; [exact HF|].
+  assert (Hdl0 : rf_dl x0 0 [] x0) by (split; [apply rf_ext_refl|split; [apply Nat.le_refl|reflexivity]]).
+  destruct (rf_sim_run summ1 summN d pos0 x0 0 Hpos0 Hsid Hg_idx Hg_sum Hspd Hw Hg3 Hfill ops x0 stm st Hfr Hal Hts ltac:(rewrite Hom; lia) Hdl0
+              ltac:(rewrite Hom; exact Edo) Hpy) as (cs & HR & HF & Hout & (_ & _ & Hall)).
+  exists cs. fold x in HR, HF, Hout, Hall. cbn [skipn] in Hall. split; [exact Hall|]. split; [exact Hout|]. split; [exact HF|].
   destruct HR as [Rbok Rtok Rty Rlvlen Rpos Rnz Rheads Rdhead Rlvls Rdts].
   split; [destruct Rbok as (((_ & _ & Hf) & _) & _); exact Hf|]. split; [exact Rbok|].
   intros L HL. apply Rheads. exact HL.
